@@ -34,22 +34,29 @@ class UseGenerator(SimpleCodemod, NameResolutionMixin):
             # but it's a less compelling use case
             case cst.Name("any" | "all" | "sum" | "min" | "max"):
                 if self.is_builtin_function(original_node):
-                    match original_node.args[0].value:
+                    match updated_node.args[0].value:
                         case cst.ListComp(elt=elt, for_in=for_in):
                             self.add_change(original_node, self.change_description)
+                            # e.g. `max([...], default=0)`, `sum([...], 10)`: keep them
+                            remaining_args = updated_node.args[1:]
+                            if remaining_args:
+                                # a generator that is not the sole argument needs its own parens
+                                generator = cst.GeneratorExp(elt=elt, for_in=for_in)
+                                first_arg = updated_node.args[0].with_changes(
+                                    value=generator
+                                )
+                            else:
+                                generator = cst.GeneratorExp(
+                                    elt=elt,  # type: ignore
+                                    for_in=for_in,  # type: ignore
+                                    # No parens necessary since they are
+                                    # already included by the call expr itself
+                                    lpar=[],
+                                    rpar=[],
+                                )
+                                first_arg = cst.Arg(value=generator)
                             return updated_node.with_changes(
-                                args=[
-                                    cst.Arg(
-                                        value=cst.GeneratorExp(
-                                            elt=elt,  # type: ignore
-                                            for_in=for_in,  # type: ignore
-                                            # No parens necessary since they are
-                                            # already included by the call expr itself
-                                            lpar=[],
-                                            rpar=[],
-                                        )
-                                    )
-                                ],
+                                args=[first_arg, *remaining_args],
                             )
 
-        return original_node
+        return updated_node
